@@ -650,6 +650,24 @@ def rule_ver(ctx) -> None:
     ctx.check(content, "C05.VER", f"{be.qual}/content-derived", be.loc(), "the etag hashes node labels/attrs and edge fields (incl. weights) of the whole graph",
               ("the etag is a hash of (len(nodes), len(edges)) only: re-weighting an edge keeps the etag" if len_only else
                "the etag is not derived from graph content (chained/counter only): two store instances with the same mutation history share etags although their graphs differ"))
+    # (b') the etag sees what the walkers see: T1 reads the adjacency lists csr() builds, and under relax_cap / queue budgets the
+    #      order of those lists decides the result.  Either csr() puts them in a canonical order, or the etag hashes the edge map
+    #      in the same (insertion) order - a sorted hash over an insertion-ordered walk gives equal etags to graphs that propagate
+    #      differently.
+    def _canon_order(loop: ast.For) -> bool:
+        return isinstance(loop.iter, ast.Call) and dotted(loop.iter.func) == "sorted"
+    csr = ctx.func(STORE + ".csr")
+    walk_loops = [x for x in walk_no_defs(csr.node) if isinstance(x, (ast.For, ast.comprehension)) and "edges" in src(x.iter)]
+    walk_sorted = bool(walk_loops) and all(isinstance(x.iter, ast.Call) and dotted(x.iter.func) == "sorted" for x in walk_loops) or any(
+        isinstance(x, ast.Call) and call_tail(x) in ("sort", "sorted") for x in walk_no_defs(csr.node))
+    etag_edge_loops = [l for l in loops if "edges" in src(l.iter)]
+    if not walk_loops or not etag_edge_loops:
+        raise AnalysisError("anchor-vanished: edge loops of csr() / _bump_etag")
+    etag_sorted = all(_canon_order(l) for l in etag_edge_loops)
+    ctx.check(walk_sorted or not etag_sorted, "C05.VER", f"{be.qual}/hash-order-is-walk-order", be.loc(etag_edge_loops[0]),
+              "the etag hashes the edge map in the order csr() hands it to T1" if not walk_sorted else "csr() builds adjacency lists in a canonical order",
+              "the etag hashes edges in sorted-id order while csr() builds the adjacency lists in insertion order: two stores with the same edges inserted in another order get equal etags, yet "
+              "under relax_cap / a queue budget T1 relaxes different edges - the process-global T1 cache serves the first store's propagation to the second")
     # (c) index version: every write to the episode list is followed, on every normal path, by an increment of the version;
     #     nothing resets it
     n_m = 0
